@@ -271,3 +271,68 @@ def plasticity_class(vk, cfg):
         vk.ensures_eq("plastic-update: yield-condition-after-update (squared)", np.sum(sdev * sdev), r * r)
     if vk.sym:
         vk.canary("hessian==2*D(gradient)", bc(dsde, (3, 3, 3, 3, q, c)), 2 * dF(vk, sig, F) + 1)
+
+
+# ---------------------------------------------------------------------------------------------------------
+OPT_OK = [("ux",), ("ux", "bx")]
+OPT_OBSERVED = [("ps",), ("bx",), ("ux", "ps"), ("ps", "bx"), ("ux", "ps", "bx")]
+
+
+def _optimize_run(cases, relative):
+    """native: fit exact and perturbed data of the load cases `cases`; which documented clauses hold"""
+    lam = {"ux": np.linspace(1.0, 2.0, 6)[1:], "ps": np.linspace(1.0, 1.8, 5)[1:], "bx": np.linspace(1.0, 1.5, 8)[1:]}
+    true = fem.Hyperelastic(fem.neo_hooke, mu=1.7)
+    curve = lambda m, lc, x: getattr(m.view(incompressible=True, ux=None, ps=None, bx=None), {"ux": "uniaxial", "ps": "planar", "bx": "biaxial"}[lc])(x)[1]  # noqa: E731
+    exact = {lc: np.array([lam[lc], curve(true, lc, lam[lc])]) for lc in cases}
+    noisy = {lc: np.array([lam[lc], curve(true, lc, lam[lc]) * (1 + 0.05 * np.cos(3 * lam[lc] + k))]) for k, lc in enumerate(cases)}
+    umat = fem.Hyperelastic(fem.neo_hooke, mu=1.0)
+    out = {}
+    for tag, data in (("exact", exact), ("noisy", noisy)):
+        try:
+            new, res = umat.optimize(incompressible=True, relative=relative, **{lc: d.copy() for lc, d in data.items()})
+            spec = []
+            for lc in ("ux", "ps", "bx"):
+                if lc in data:
+                    r = curve(new, lc, data[lc][0]) - data[lc][1]
+                    spec.append(r / data[lc][1] if relative else r)
+            spec = np.concatenate(spec)
+            out[tag] = dict(n=len(res.fun), n_spec=len(spec), dev=(float(np.abs(np.asarray(res.fun) - spec).max()) if len(res.fun) == len(spec) else float("inf")), mu=float(new.kwargs["mu"]), cost=float(res.cost))
+        except Exception as e:  # noqa: BLE001
+            out[tag] = dict(error=f"{type(e).__name__}: {e}")
+    ok = {
+        "returns": all("error" not in o for o in out.values()),
+        "every data point of every given load case enters the residual vector": all(o.get("n") == o.get("n_spec") for o in out.values()),
+        "res.fun == [r_ux; r_ps; r_bx] of the fitted material (each prediction against the observation of its own load case)": all(o.get("dev", 1) < 1e-9 for o in out.values()),
+        "data generated exactly by the material class are fitted exactly": "error" not in out["exact"] and abs(out["exact"]["mu"] - 1.7) < 1e-6 and out["exact"]["cost"] < 1e-16,
+    }
+    call = f"Hyperelastic(neo_hooke, mu=1.0).optimize({', '.join(c + '=data_' + c for c in cases)}, incompressible=True, relative={relative})"
+    return out, ok, call
+
+
+@contract("C03", "optimize_loadcases", configs=[dict(cases="+".join(c), relative=r) for c in OPT_OK for r in (False, True)] + [dict(cases="observed")], engine="ground")
+def optimize_loadcases(vk, cfg):
+    """optimize(ux=, ps=, bx=): "at least one of the arguments ux, ps or bx must not be None"; the documented vector of
+    residuals is r = [r_ux; r_ps; r_bx] with r_lc(λ_i) = P_lc(λ_i) - P_lc,observed(λ_i) (divided by the observation
+    if relative=True) over the load cases given.  Stated natively (scipy least squares) on the returned result:
+    `res.fun` is that vector for the fitted material (every data point of every load case given enters, each
+    prediction is compared with the observation of its own load case), and data generated exactly by a material of
+    the same class (neo_hooke, mu=1.7; start mu=1) are fitted exactly.  Parameter fitting is outside every property
+    (lead decision): obligations for the combinations the real code handles (ux alone, ux + bx); what it does with
+    ps / bx alone / ux + ps / ps + bx / all three is recorded as ONE observation (vk.note), not as an obligation"""
+    if not vk.sym:
+        return
+    vk.real(fem.ConstitutiveMaterial.optimize, alias="felupe.constitution._base.ConstitutiveMaterial.optimize [load cases ux / ps / bx]")
+    if cfg["cases"] != "observed":
+        with symnp.native():
+            out, ok, call = _optimize_run(cfg["cases"].split("+"), cfg["relative"])
+        for k, v in ok.items():
+            vk.ensures_true(k, bool(v), f"{call}: {out}", backend="exec")
+        vk.canary_bool("the fitted parameter is the start value", abs(out["exact"].get("mu", 1.0) - 1.0) > 1e-3)
+        return
+    lines = []
+    with symnp.native():
+        for cases in OPT_OBSERVED:
+            out, ok, call = _optimize_run(list(cases), False)
+            bad = [k for k, v in ok.items() if not v]
+            lines.append(f"{call}: " + ("all documented clauses hold" if not bad else "VIOLATED: " + "; ".join(bad)) + f" {out}")
+    vk.note("observation (parameter fitting is outside every property; NOT an obligation): optimize builds `experiments` in the order [ux, bx, ps] and zips it with view(...).evaluate(), which returns only the load cases given, in the order ux, ps, bx -- a planar / biaxial data set without uniaxial data raises, planar data next to uniaxial data are silently dropped, with all three the planar prediction is compared with the biaxial observation and vice versa.  " + " || ".join(lines))
